@@ -257,6 +257,24 @@ def run(check):
     if isinstance(c.func, ast.Attribute) and c.func.attr == 'read_from' and c.args:
       o = _list_origin(T, c.func.value, bs)
       loads[o] = unparse(c.args[0])
+  # with USE_WHITELIST set both lists are put under watch unconditionally (a file that appears later must be picked up)
+  gbs = cx.cfg(bs)
+  rf_nodes = {}
+  for n in gbs.nodes:
+    for c in gbs.calls(n):
+      if isinstance(c.func, ast.Attribute) and c.func.attr == 'read_from' and c.args:
+        o = _list_origin(T, c.func.value, bs)
+        if o:
+          rf_nodes.setdefault(o, set()).add(n)
+  sw_true = [(a, b) for a in gbs.nodes for b, lab in a.succ if isinstance(lab, tuple) and lab[0] == 'T' and
+             'USE_WHITELIST' in unparse(lab[1])]
+  for o in ('WhiteList', 'BlackList'):
+    if o in rf_nodes and sw_true and all(gbs.exit not in gbs.reach([b], removed_nodes=rf_nodes[o], normal_only=True) for a, b in sw_true):
+      r_l.ok('%s.read_from() is called on every path once USE_WHITELIST is set' % o, bs.loc(sorted(rf_nodes[o], key=lambda x: x.lineno)[0].ast))
+    elif o in rf_nodes:
+      r_l.violate('%s watched conditionally' % o, bs, sorted(rf_nodes[o], key=lambda x: x.lineno)[0].ast, 'with USE_WHITELIST set, '
+                  '%s.read_from() is skipped on some path (e.g. when the file does not exist at start-up): a list file that is '
+                  'created later is never read, so datapoints it should reject are admitted' % o)
   if loads.get('WhiteList', '').endswith('whitelist') and loads.get('BlackList', '').endswith('blacklist'):
     r_l.ok('WhiteList <- settings.whitelist, BlackList <- settings.blacklist', bs.loc())
   else:
